@@ -463,6 +463,34 @@ Definition spec_parse {C : Type} (apply : N -> option str -> C -> option C) (kin
   | prog :: args => spec_args apply kindof prog argv args 1 cfg
   end.
 
+(* command lines of the documented form  tool [options] file ... : every option word (with its value) comes
+   before the first file name, and "--" is not used as an option word.  (A word that stops with usage counts:
+   both getopt flavours print the usage text there.) *)
+Fixpoint options_first {C : Type} (apply : N -> option str -> C -> option C) (kindof : N -> kind) (prog : str)
+         (args : list str) (cfg : C) : bool :=
+  match args with
+  | [] => true
+  | a :: rest =>
+    if str_eqb a s_dashdash then false
+    else if is_option_word a then
+      match scan_cluster apply kindof prog (tl a) (hd_error rest) cfg with
+      | CHelp _ => true
+      | CNext cfg' false => options_first apply kindof prog rest cfg'
+      | CNext cfg' true => match rest with _ :: rest' => options_first apply kindof prog rest' cfg' | [] => true end
+      end
+    else forallb (fun w => negb (is_option_word w)) rest
+  end.
+
+Definition documented_form (t : tool) (argv : list str) : bool :=
+  match argv with
+  | [] => true
+  | prog :: args =>
+      match t with
+      | W2X => options_first w2x_apply kind_w2x prog args (w2x_default, None)
+      | X2W => options_first x2w_apply kind_x2w prog args (x2w_default, None)
+      end
+  end.
+
 Definition tool_spec_parse (t : tool) (argv : list str) : parsed pst :=
   match t with
   | W2X => map_parsed (fun p => (LW (fst p), snd p)) (spec_parse w2x_apply kind_w2x argv (w2x_default, None))
